@@ -2,7 +2,7 @@
 """Must-fail / benign corpus: each entry is a textual edit of /repo (applied to the working tree and
 reverted afterwards). Mutants must make the named property's check exit 1 (and, if given, name an
 obligation matching `expect`); benign edits must leave it at exit 0.
-usage: selftest.py [PROP ...]"""
+usage: selftest.py [PROP | entry-name ...]"""
 import json,subprocess,sys,os,re
 corpus=json.load(open('/verif/selftest/corpus.json'))
 want=set(sys.argv[1:])
@@ -11,7 +11,7 @@ def sh(*a,**k): return subprocess.run(*a,capture_output=True,text=True,**k)
 if sh(['git','-C','/repo','status','--porcelain','--untracked-files=no']).stdout.strip():
     print('repo dirty'); sys.exit(2)
 for c in corpus:
-    if want and c['prop'] not in want: continue
+    if want and c['prop'] not in want and c['name'] not in want and not any(c['name'].startswith(w+'-') for w in want): continue
     p='/repo/'+c['file']; s=open(p).read()
     if c['old'] not in s:
         print('STALE   %-34s (text to replace not found in %s)'%(c['name'],c['file'])); bad+=1; continue
